@@ -363,6 +363,46 @@ pub fn run(a: &Args, rep: &mut Reporter) {
                 }
             }
         }
+        // ---------- (d) a caller that ignores the failed call and carries on to the top-level finalize: whenever that
+        // finalize reports success the device must hold a complete file, i.e. one that opens and whose listed
+        // content is exactly what the calls that returned Ok were given (read-back oracle of C01/C04/C06)
+        {
+            let mut scene2 = scene.clone();
+            scene2.stop_on_err = false;
+            scene2.carry_on = true;
+            let budget: u64 = if a.thorough() { 600 } else { 64 };
+            let stride = (total_ops / budget).max(1);
+            let mut k = r.u64() % stride;
+            while k < total_ops {
+                let fk = kinds[(k as usize + idx as usize) % 2];
+                let d = Dev::empty();
+                d.set_fault(k, fk, false);
+                let run = run_scene(&scene2, d.clone(), Judge::Conforming);
+                rep.stat("writer_fault_runs", 1);
+                rep.stat("writer_fault_runs_carry_on", 1);
+                if let Some((_, kind, call)) = d.fail_hit() {
+                    let call_name = run.calls.iter().find(|c| c.no == call).map(|c| c.op.clone()).unwrap_or_else(|| if call == 0 { "(drop)".into() } else { "(add_point)".into() });
+                    let cn = call_name.split(' ').next().unwrap_or("?").to_string();
+                    if run.panicked {
+                        rep.violation("C16", &format!("writer/carry-on/panic/{:?}/{}", kind, cn), idx, &format!("device fault ({:?}) at op {} during {}; the caller went on and the library panicked: {:?}", fk, k, call_name, run.calls.last().and_then(|c| c.panic.clone())));
+                    } else if run.finalized {
+                        cover.hit(&format!("writer-fault-carry-on:finalize-ok:{}", cn));
+                        rep.stat("carry_on_finalize_ok", 1);
+                        let mut stats = crate::readback::RbStats::default();
+                        let mut ctx = crate::readback::Ctx { primary: "C16", hostile: false, cover: &mut cover, stats: &mut stats };
+                        let vs = crate::readback::verify_readback(&d.bytes(), &scene2, &run, &mut ctx);
+                        if let Some(v) = vs.first() {
+                            rep.violation("C16", &format!("writer/carry-on/finalize-ok-but-file-wrong/{}/{}", cn, v.sig.split('/').take(2).collect::<Vec<_>>().join("/")), idx, &format!("device fault ({:?}) at op {} made '{}' return Err; the caller went on, top-level finalize returned Ok, but the file is not the complete file of the calls that succeeded: [{}] {} :: {} ({} findings)", fk, k, call_name, v.prop, v.sig, v.detail.chars().take(300).collect::<String>(), vs.len()));
+                        } else {
+                            rep.stat("carry_on_files_verified", 1);
+                        }
+                    } else {
+                        cover.hit(&format!("writer-fault-carry-on:finalize-err:{}", cn));
+                    }
+                }
+                k += stride;
+            }
+        }
         // ---------- (b) reader: one fault at every device operation of the read suite
         for k in 0..read_total_ops {
             for fk in [kinds[(k as usize + idx as usize) % 2]] {
